@@ -36,12 +36,13 @@ def _classify(c, e, o):
 
 
 def run(ck):
-    ck.rule = ("TLC enumerates every (base, override) pair of token lists (base <= MaxBase, override <= MaxOvr entries over "
+    ck.rule = ("TLC enumerates every (base, override) pair of token lists (quick: base <= 3 with override <= 1 and base <= 1 with override <= 3; thorough: both <= 3; entries over "
                "{v4a, v4b, v4a-padded, v6, hostname, fly host, wildcard, blank}), proves the transcribed loop equal to the declarative "
                "normal form and emits the latter; each pair is run through ParseAddresses in %d seeded concretisations "
                "(literals, ports, near-miss host names, kinds of white space, nil vs empty slices, tcp/udp); non-trivial = the lists "
                "contain a blank, a padded entry, a duplicate, a rejected host, the Fly host, or a non-empty override" % REPS)
-    mb, mo = (3, 3) if ck.thorough else (3, 2)
+    # quick: 3-entry lists on either side against <= 1 entry on the other; thorough: all pairs of lists <= 3
+    small = 3 if ck.thorough else 1
 
     def judge(c, e, obs):
         for o in obs:
@@ -71,7 +72,7 @@ def run(ck):
         return bool(o) or len(set(eff)) < len(eff) or any(t in ("blank", "v4ap", "host", "fly") for t in b + o)
 
     vf.table_check(ck, "Listen", "MC_Listen.cfg", "c47listen", drv_args=[str(REPS)],
-                   constants={"MaxBase": mb, "MaxOvr": mo}, judge=judge, sig=sig, nontrivial=nontrivial)
+                   constants={"MaxBase": 3, "MaxOvr": 3, "Small": small}, judge=judge, sig=sig, nontrivial=nontrivial)
     ck.evaluations *= REPS
     ck.assumptions += ["duplicates are judged as equal strings after trimming (textually different spellings of one IP are not generated)",
                        "IPv4-mapped IPv6 literals, entries without a port and upper-case spellings of the Fly host are outside the generated space "
